@@ -619,11 +619,12 @@ def s2c_args(ctx, rep, cases):
         got, store = r
         keys = args_keys(kind, hist)
         last = hist[-1]
-        if store != case['store']:                            # a call owns nothing of the caller
+        if last['op'] == 'get' and got != case['out']:        # the new binding itself is wrong
+            rep('getcallargs' + ('_wrapped' if last['obj'] else ''), keys, {'sig': sig, 'hist': hist}, {'expected': case['out'], 'observed': got})
+        elif store != case['store']:                          # a call owns nothing of the caller
             rep('argument_changed', keys, {'sig': sig, 'hist': hist}, {'expected_bindings': case['store'], 'observed_bindings': store})
         elif case['out'][0] != 'unspec' and got != case['out']:
-            clause = ('getcallargs' if last['op'] == 'get' else 'call_with_callargs') + ('_wrapped' if last['obj'] else '')
-            rep(clause, keys, {'sig': sig, 'hist': hist}, {'expected': case['out'], 'observed': got})
+            rep('call_with_callargs' + ('_wrapped' if last['obj'] else ''), keys, {'sig': sig, 'hist': hist}, {'expected': case['out'], 'observed': got})
         if len(hist) > 1:
             ctx.note(('args', json.dumps([sig, hist], sort_keys=True)))
         if n % 1501 == 0:
